@@ -22,6 +22,7 @@ FLIP = {'eq': 'eq', 'lt': 'gt', 'le': 'ge', 'gt': 'lt', 'ge': 'le'}
 NEG = {'lt': 'ge', 'le': 'gt', 'gt': 'le', 'ge': 'lt'}
 DEFAULTS = {
     'operatorTable': [['=', 'eq'], ['<', 'lt'], ['<=', 'le'], ['>', 'gt'], ['>=', 'ge']],
+    'memLimitTest': 'isNotNone', 'fileLimitTest': 'isNotNone', 'dayCountKind': 'calendar', 'dayCountPlus': 1,
     'rateAlwaysCmp': 'ge', 'drawKeepCmp': 'le', 'fileAboveCmp': 'gt', 'windowStartCmp': 'le', 'windowEndCmp': 'le',
     'opOutputAlias': '_tape_recorder_operation', 'aboveLimitContent': 'above interception limit', 'defaultFileLimit': 500,
     's3FullKey': 'tape_recorder_recordings/{key_prefix}full/{id}', 's3MetadataKey': 'tape_recorder_recordings/{key_prefix}metadata/{id}',
@@ -185,6 +186,46 @@ def extract(repo):
         mk = class_const(s3, 'S3TapeCassette', 'METADATA_KEY')
     except Exception:
         pass
+    # -- `_get_id_prefixes`: range(<day difference> + k) -------------------------------------------------------------
+    kind, plus = None, None
+    try:
+        fn = find_func(s3, '_get_id_prefixes')
+        for n in ast.walk(fn):
+            if isinstance(n, ast.Call) and is_name(n.func, 'range') and len(n.args) == 1:
+                a = n.args[0]
+                k = 0
+                if isinstance(a, ast.BinOp) and isinstance(a.op, ast.Add) and isinstance(a.right, ast.Constant) and isinstance(a.right.value, int):
+                    a, k = a.left, a.right.value
+                if is_attr(a, 'days') and isinstance(a.value, ast.BinOp) and isinstance(a.value.op, ast.Sub):
+                    l, r = a.value.left, a.value.right
+
+                    def date_of(x, name):
+                        return isinstance(x, ast.Call) and is_attr(x.func, 'date') and is_name(x.func.value, name)
+                    if date_of(l, 'end_date') and date_of(r, 'start_date'):
+                        kind, plus = 'calendar', k
+                    elif is_name(l, 'end_date') and is_name(r, 'start_date'):
+                        kind, plus = 'elapsed', k
+    except Exception:
+        pass
+    put('dayCountKind', kind)
+    put('dayCountPlus', plus if isinstance(plus, int) and plus >= 0 else None)
+    # -- `if limit is not None:` / `if limit:` before `ids[:limit]` in the in-memory and file based cassettes -----------
+    for name, rel in (('memLimitTest', 'playback/tape_cassettes/in_memory/in_memory_tape_cassette.py'),
+                      ('fileLimitTest', 'playback/tape_cassettes/file_based/file_based_tape_cassette.py')):
+        test = None
+        try:
+            fn = find_func(parse(repo, rel), 'iter_recording_ids')
+            for n in ast.walk(fn):
+                if isinstance(n, ast.If) and any(isinstance(x, ast.Slice) and is_name(x.upper, 'limit') for b in n.body for x in ast.walk(b)):
+                    t = n.test
+                    if is_name(t, 'limit'):
+                        test = 'truthy'
+                    elif isinstance(t, ast.Compare) and is_name(t.left, 'limit') and len(t.ops) == 1 and isinstance(t.ops[0], ast.IsNot) \
+                            and isinstance(t.comparators[0], ast.Constant) and t.comparators[0].value is None:
+                        test = 'isNotNone'
+        except Exception:
+            pass
+        put(name, test)
     put('s3FullKey', fk if isinstance(fk, str) else None)
     put('s3MetadataKey', mk if isinstance(mk, str) else None)
     return atoms, notes
@@ -228,6 +269,12 @@ def fileAboveCmp : Cmp := .%s
 def windowStartCmp : Cmp := .%s
 /-- … and `o.last_modified <op> end_date` -/
 def windowEndCmp : Cmp := .%s
+/-- in_memory / file_based `iter_recording_ids`: how `limit` is tested before `ids[:limit]` -/
+def memLimitTest : NoneTest := .%s
+def fileLimitTest : NoneTest := .%s
+/-- s3_tape_cassette.py `_get_id_prefixes`: `range(<day difference> + k)` -/
+def dayCountKind : DayCount := .%s
+def dayCountPlus : Nat := %d
 /-- `TapeRecorder.OPERATION_OUTPUT_ALIAS` -/
 def opOutputAlias : String := %s
 /-- `FileInterception.ABOVE_LIMIT_CONTENT` (text and UTF-8 bytes) -/
@@ -241,6 +288,7 @@ def s3MetadataKey : String := %s
 
 end PlaybackModel.Source
 ''' % (t, atoms['rateAlwaysCmp'], atoms['drawKeepCmp'], atoms['fileAboveCmp'], atoms['windowStartCmp'], atoms['windowEndCmp'],
+       atoms['memLimitTest'], atoms['fileLimitTest'], atoms['dayCountKind'], atoms['dayCountPlus'],
        lean_str(atoms['opOutputAlias']), lean_str(atoms['aboveLimitContent']),
        ', '.join(str(b) for b in atoms['aboveLimitContent'].encode('utf-8')), atoms['defaultFileLimit'],
        lean_str(atoms['s3FullKey']), lean_str(atoms['s3MetadataKey']))
